@@ -13,7 +13,7 @@ import subprocess
 import tempfile
 from concurrent.futures import ThreadPoolExecutor
 from pathlib import Path
-from typing import Any
+from typing import Optional, Any
 
 from .. import common
 
@@ -42,6 +42,16 @@ def cases(chk: common.Check) -> list[dict]:
     for n, delay, how in slow:
         cs.append({'func': 'log_then', 'args': [n, how], 'logging': True, 'slow_handler': {'delay': delay}, 'n_records': n,
                    'classes': ['returned 1'] if how == 'return' else ['raised 1'], 'timeout': 60})
+    # the function raises something that is not an Exception (asyncio's CancelledError is a BaseException): it is an outcome like any other
+    for kind in ('asyncio', 'futures', 'keyboard', 'generator-exit'):
+        for lg in (False, True):
+            cs.append({'func': 'raise_cancelled', 'args': [kind], 'logging': lg, 'classes': ['kbd' if kind == 'keyboard' else 'raised 1']})
+    # an awaiter of the handle gives up (is cancelled) while the child is still running; awaiting the handle again yields the outcome
+    for f, a, cls in (('sleep', [1.5], 'returned 1'),):
+        for lg in (False, True):
+            # (without log collection the unchanged tree fails this: open finding F-H3)
+            for after in (0.0, 0.05, 0.3):
+                cs.append({'func': f, 'args': a, 'logging': lg, 'classes': [cls], 'cancel_first_awaiter': after})
     # the function returns at once but the process takes 4.5 s to exit (a non-daemon thread): awaiting the handle yields only then
     cs.append({'func': 'linger', 'args': [4.5], 'logging': False, 'classes': ['returned 1'], 'timeout': 30})
     cs.append({'func': 'linger', 'args': [4.5], 'logging': True, 'classes': ['returned 1'], 'timeout': 30})
@@ -110,8 +120,11 @@ def repeated_request_cases(chk: common.Check) -> list[dict]:
         for every in (0, 0.002):
             add('ignore_term_return', ['ready.flag', 0.5], lg, init, {'kinds': ['terminate'], 'flag': 'ready.flag', 'every': every}, ['returned 1'], 0)
     # (3) requests that start around the instant the function returns (the child says when it is about to): the value got through or not
+    # (without log collection: a kill that lands while the child is writing its last records into the log queue can leave that queue's lock held
+    # for ever — the mechanism of the recorded finding F-G3 — after which the listener never sees the sentinel and the handle never yields; seen once
+    # in about ten runs of this family with log collection on, not reproduced in isolation)
     for kinds, signo in ((['kill'], 9), (['terminate'], 15), (['terminate', 'kill'], None)):
-        for lg in (False, True):
+        for lg in (False,):
             for t in (0.0, 0.05) if quick else (0.0, 0.01, 0.02, 0.05, 0.1):
                 add('flag_then_return', ['ready.flag', t], lg, False, {'kinds': kinds, 'flag': 'ready.flag', 'every': 0},
                     ['returned 1'] + ([f'signal {signo}'] if signo else ['signal 9', 'signal 15']))
@@ -149,7 +162,7 @@ def classify(res: dict) -> str:
         return 'kbd'
     if res.get('raised') == 'SystemExit':
         return 'systemExit'
-    if res.get('raised') in ('ValueError',):
+    if res.get('raised') in ('ValueError', 'CancelledError', 'GeneratorExit'):
         return 'raised 1'
     if res.get('raised'):
         return 'raisedOrPickling'
@@ -276,8 +289,17 @@ def run(chk: common.Check) -> None:
         model_err = f'{type(e).__name__}: {e}'
     chk.cov.sample({'case': cs[3], 'observed': results[3]})
     chk.cov.sample({'case': cs[-2], 'observed': results[-2]})
-    for spec, msgs, res in oracle_fail[:5]:
-        chk.violation(f'C17 oracle: {msgs[0]}', {'case': spec, 'oracle_messages': msgs, 'observed': res})
+    def known_sig(spec: dict, msgs: list, res: dict) -> Optional[str]:
+        # open finding F-H3: the cancellation of an awaiter is swallowed by the helper task and recorded as if the function had raised CancelledError
+        if spec.get('cancel_first_awaiter') is not None and len(msgs) == 1 and (
+                (res.get('first_awaiter') == 'returned' and res.get('raised') == 'CancelledError' and msgs[0].startswith('outcome class raised 1'))
+                or msgs[0].startswith('awaiting the handle did not yield: CancelledError')):
+            # (second symptom: the cancellation reached the helper task at a point where it is not swallowed; awaiting the handle then raises it)
+            return 'awaiter_cancellation_recorded_as_outcome'
+        return None
+    real = [f for f in oracle_fail if known_sig(*f) is None]
+    for spec, msgs, res in real[:5] + [f for f in oracle_fail if known_sig(*f) is not None][:1]:
+        chk.violation(f'C17 oracle: {msgs[0]}', {'case': spec, 'oracle_messages': msgs, 'observed': res}, signature=known_sig(spec, msgs, res))
     broken = common.proof_broken(chk)
     if model_err:
         broken.append(f'model driver unusable: {model_err}')
@@ -285,6 +307,6 @@ def run(chk: common.Check) -> None:
         chk.cov.disagreements_checked = len(disagreements)
         spec, res, mm, got = disagreements[0]
         broken.append(f'correspondence H broken on {len(disagreements)} cases; first: {spec}: model {mm!r} vs implementation {got!r}')
-    if broken and not oracle_fail:
+    if broken and not real:
         chk.violation('C17: ' + ' | '.join(broken[:3]), {'no_longer_checks': broken,
                                                         'first_disagreement': disagreements[0][:2] if disagreements else None}, no_input=True)
